@@ -3,7 +3,7 @@
    [src_shape], the decision shapes tools/src2coq.py reads from rotatingfilesink.cpp / filesink.cpp /
    iodevicesink.cpp on every run.  [run src_shape c t0 ops] is the model the check executes against
    the real sink (coq/extract/Ex_rotate.v extracts these very definitions).
-   Quantification: every op list [ops] (Write of any payload / Advance of the wall clock, never
+   Quantification: every op list [ops] (Write of any payload and any message type / Advance of the wall clock, never
    backwards / Restart / PutForeign), every configuration [c] (any L, any N, all 8 option sets, three
    timestamp granularities, any base name and suffix, any time zone offset within +-24 h), any start time.  Hypothesis [clean c ops]:
    nobody else creates files that follow the sink's own rotated-name scheme (PutForeign names are
@@ -57,7 +57,7 @@ Print Assumptions C05_oracle_holds.
    file and a removal by retention *)
 Example C05_nonvacuous :
   let w := run src_shape {| cL := 4; cN := 3; startup := true; daily := true; compress := true; cgran := G1s; cbase := [97%N]; csuffix := [108%N]; ctz := 0 |} 1700000000000
-   [Write [97%N]; Write [98%N; 98%N]; Advance 86400000; Write [99%N]; Restart; Write [100%N; 100%N; 100%N];
-   PutForeign [120%N] [1%N]; Write [101%N]; Write [102%N]] in
+   [Write TInfo [97%N]; Write TInfo [98%N; 98%N]; Advance 86400000; Write TInfo [99%N]; Restart; Write TInfo [100%N; 100%N; 100%N];
+   PutForeign [120%N] [1%N]; Write TCritical [101%N]; Write TInfo [102%N]] in
   (length (hist w), length (gone w), length (rot w), length (act w), prop_c05_b std_shape {| cL := 4; cN := 3; startup := true; daily := true; compress := true; cgran := G1s; cbase := [97%N]; csuffix := [108%N]; ctz := 0 |} (snap_of w)) = (6%nat, 2%nat, 2%nat, 2%nat, true).
 Proof. vm_compute. reflexivity. Qed.
